@@ -21,14 +21,19 @@ SAN = ["-fsanitize=address,undefined", "-fno-omit-frame-pointer", "-no-pie"]
 # scenario -> expected fault-free shape: resumption pattern of the server per connection (positive scenarios)
 POSITIVE = {"keys": "", "tls12": "01", "tls12-ticket-renew": "0101", "tls13": "01", "tls12-cauth": "01", "tls13-cauth": "01",
             "tls12-ec-cauth": "01", "tls13-ec-cauth": "01", "tls11": "01", "tls12-rsa-cbc": "01", "tls12-cbc-sha384": "01",
-            "tls13-chacha": "01", "tls13-psk": "11"}
+            "tls13-chacha": "01", "tls13-psk": "11",
+            # DTLS 1.2 / 1.0 (own allocation sites: save-aside copies for retransmits, flight buffers, fragment reassembly, cookie, resend)
+            "dtls12": "01", "dtls12-ticket": "01", "dtls12-cauth": "01", "dtls12-ec-cauth": "01", "dtls10-cbc": "01", "dtls12-frag": "01",
+            "dtls12-lost1": "01", "dtls12-lost2": "01", "dtls12-cauth-lost5": "01", "dtls12-lost6": "01"}
 NEGATIVE = ["neg12-name", "neg13-name", "neg12-ca", "neg13-ca", "neg12-clientcert", "neg13-clientcert", "neg12-cb", "neg13-cb",
-            "neg13-psk", "neg12-ec-name"]
+            "neg13-psk", "neg12-ec-name", "negd12-name", "negd12-ca", "negd12-clientcert"]
 # quick tier: the scenarios of the property's quantifier with deterministic subsampling (first QUICK_OCC executions of every
 # (call stack, API call, phase) combination are fault points); thorough: every scenario, every k
 QUICK_SCEN = ["keys", "tls12", "tls12-ticket-renew", "tls12-ticket-renew+del", "tls13", "tls13+del", "tls12-cauth", "tls13-cauth", "tls13-cauth+del",
               "tls12-ec-cauth", "tls13-psk", "tls12-cbc-sha384",
-              "neg12-name", "neg13-name", "neg12-ca", "neg13-ca", "neg12-clientcert", "neg13-clientcert", "neg12-cb", "neg13-cb", "neg13-psk"]
+              "neg12-name", "neg13-name", "neg12-ca", "neg13-ca", "neg12-clientcert", "neg13-clientcert", "neg12-cb", "neg13-cb", "neg13-psk",
+              "dtls12-ticket", "dtls12-ec-cauth", "dtls12-ec-cauth+del", "dtls10-cbc", "dtls12-frag", "dtls12-lost1", "dtls12-lost2", "dtls12-cauth-lost5", "dtls12-lost6",
+              "negd12-name", "negd12-ca", "negd12-clientcert"]
 QUICK_OCC = 10
 # "<scenario>+del": the application deletes its objects right after the connection in which the allocation failed
 ALL_SCEN = list(POSITIVE) + NEGATIVE + [s_ + "+del" for s_ in POSITIVE if s_ != "keys"]
@@ -37,7 +42,9 @@ NEG_WHAT = {"neg12-name": "expectedName does not match the server certificate", 
             "neg12-ca": "server chain does not lead to the client's CA", "neg13-ca": "server chain does not lead to the client's CA",
             "neg12-clientcert": "client certificate is not trusted by the server", "neg13-clientcert": "client certificate is not trusted by the server",
             "neg12-cb": "the client's certificate callback rejects", "neg13-cb": "the client's certificate callback rejects",
-            "neg13-psk": "the two sides hold different PSKs (and the certificate fallback has a wrong name)"}
+            "neg13-psk": "the two sides hold different PSKs (and the certificate fallback has a wrong name)",
+            "negd12-name": "DTLS: expectedName does not match the server certificate", "negd12-ca": "DTLS: server chain does not lead to the client's CA",
+            "negd12-clientcert": "DTLS: client certificate is not trusted by the server"}
 PHASE_CONN = {"handshake": 0, "handshake-resumed": 1, "handshake-renewal": 2, "handshake-resumed2": 3}
 # functions whose presence in the failing allocation's call stack makes it a verification-path allocation
 VERIFY_FUNCS = re.compile(r"^(matrixValidateCerts\w*|psX509AuthenticateCert|psX509ParseCert\w*|parse_single_cert|psVerifySig|psVerify\w*|"
@@ -378,6 +385,17 @@ def fp_lost(base, child):
     return lost
 
 
+
+def _nominal_ignoring_leaks(b, scen, neg):
+    b2 = dict(b, leaks="0")
+    if scen.split("+")[0] in POSITIVE:
+        pat = POSITIVE[scen.split("+")[0]]
+        return (b2["ok"] == "1" and b2["undoc"] == "-" and b2.get("cfglost", "-") == "-" and b2.get("resumed", "")[:len(pat)] == pat and
+                b2.get("cdone", "")[:len(pat)] == "1" * len(pat) and b2.get("sdone", "")[:len(pat)] == "1" * len(pat))
+    return (neg != 0 and b2["undoc"] == "-" and b2.get("cfglost", "-") == "-" and b2["app_c"] == "0" and b2["app_s"] == "0" and
+            not ((neg & 1) and b2["cdone"][0] == "1") and not ((neg & 2) and b2["sdone"][0] == "1"))
+
+
 def analyse(ck, exe, scen, data, sidx, sym, multi, report, seed_used=1):
     """report: callable(sig, what, replay).  Returns per-site observations {key: {"reached":n,"crashed":n}}"""
     A, F, V, R, Bs = data["A"], data["F"], data["V"], data["R"], data["B"]
@@ -411,7 +429,21 @@ def analyse(ck, exe, scen, data, sidx, sym, multi, report, seed_used=1):
         # negative twin: the verification step under test refuses the handshake; nobody listed in `neg` completes, no data flows
         nominal = (neg != 0 and b["leaks"] == "0" and b["undoc"] == "-" and b.get("cfglost", "-") == "-" and b["app_c"] == "0" and b["app_s"] == "0" and
                    not ((neg & 1) and b["cdone"][0] == "1") and not ((neg & 2) and b["sdone"][0] == "1"))
-    if not nominal:
+    base_leak_owners = {}
+    if b["leaks"] != "0":
+        # blocks still live after teardown in the FAULT-FREE run: a leak that needs no allocation failure.  Reported once by its
+        # owner (not per scenario); children that leak exactly the same blocks do not repeat it
+        bl = leak_sites_of(b)
+        sym.resolve(set(a_ for _, st_ in bl for a_ in st_))
+        for _, st_ in bl:
+            g = owner_of(sym, st_)
+            base_leak_owners["%s:%s" % (rel_of(g[1]), g[0])] = base_leak_owners.get("%s:%s" % (rel_of(g[1]), g[0]), 0) + 1
+        top = sorted(base_leak_owners.items(), key=lambda x: (-x[1], x[0]))[0][0]
+        report("leak:%s" % top, "memory leaked WITHOUT any allocation failure: in the fault-free run of scenario %s %s block(s) stay allocated after the application deleted sessions, session id and keys and called matrixSslClose (owners: %s)" %
+               (scen, b["leaks"], ", ".join("%s x%d" % kv_ for kv_ in sorted(base_leak_owners.items()))),
+               {"harness": "h_fault", "scenario": scen, "k": 0, "multi": 0, "seed": seed_used, "fault_free": True, "observed": "%s live library blocks after teardown" % b["leaks"],
+                "leaked_blocks_owned_by": base_leak_owners, "expected_by_spec": "nothing leaked"})
+    if not nominal and not (b["leaks"] != "0" and _nominal_ignoring_leaks(b, scen, neg)):
         report("baseline:%s" % scen, "fault-free run of scenario %s is not nominal: %s" % (scen, {k_: b.get(k_) for k_ in ("ok", "leaks", "undoc", "cfglost", "resumed", "cdone", "sdone", "neg", "app_c", "app_s")}),
                {"scenario": scen, "baseline": b})
     # symbolise everything we need in one go
@@ -565,6 +597,15 @@ def analyse(ck, exe, scen, data, sidx, sym, multi, report, seed_used=1):
             for kk, st in ls:
                 g = owner_of(sym, st)
                 where["%s:%s" % (rel_of(g[1]), g[0])] = where.get("%s:%s" % (rel_of(g[1]), g[0]), 0) + 1
+            if base_leak_owners:
+                # what the fault-free run leaks anyway is already reported; only the surplus counts here
+                for ow, n_ in base_leak_owners.items():
+                    if where.get(ow, 0) <= n_: where.pop(ow, None)
+                    else: where[ow] -= n_
+                nl = sum(where.values())
+                if not where:
+                    stats["leak"] -= 1
+                    continue
             top = sorted(where.items(), key=lambda x: (-x[1], x[0]))[0][0] if where else "?"
             sig = "leak:%s" % top
             report(sig, "memory leaked after the application deleted all objects: %d block(s) owned by %s stay allocated when %s:%d (%s) returns NULL in scenario %s [%s, allocation #%d]%s" %
@@ -692,6 +733,10 @@ def run(ck):
     for key, o in allobs.items():
         s = o["site"]
         ck.count("reached:" + (s["cls"] if s else "not-a-table-site"))
+    dtls_sites = [s_["key"] for s_ in sites if s_.get("dtls_only")]
+    dtls_reached = sorted(k_ for k_ in dtls_sites if k_ in allobs)
+    ck.cov["dtls_only_sites"] = {"in_table": len(dtls_sites), "reached": dtls_reached, "not_reached": sorted(set(dtls_sites) - set(dtls_reached))}
+    ck.log("DTLS-only allocation sites (#ifdef USE_DTLS / dtls.c): %d in the table, %d reached: %s" % (len(dtls_sites), len(dtls_reached), " ".join(dtls_reached)))
     ck.cov["sites_total"] = len(sites)
     ck.cov["sites_reached"] = len(reached_sites)
     ck.cov["site_classes"] = hist
@@ -709,7 +754,7 @@ def run(ck):
         "sites not reached by any scenario (%d of %d): covered by the table theorem only, their classification is not cross-checked by execution" % (len(sites) - len(reached_sites), len(sites)),
         "the translator finds allocation wrappers lexically (pointer-returning functions whose return value is an allocation result); a wrapper that hands its block back through an out-parameter is covered through the caller's test of the status code only",
         "GuardedBeforeUse says that a NULL test precedes every use on the text the scanner follows; that the tested branch really leaves the function is explored, not proved",
-        "allocations made by libc on behalf of the library (fopen, getline, ...) are outside the interposer; DTLS sessions are not driven",
+        "allocations made by libc on behalf of the library (fopen, getline, ...) are outside the interposer; DTLS: one lost flight per scenario at the flight boundaries only (resend in the middle of a flight is an open C16 finding), no reordering / duplication",
     ]
     ck.rules.append("scenarios: " + ", ".join(scen))
     ck.rules.append("fault points: thorough = EVERY library allocation k of each scenario's fault-free run (exhaustive single fault, fork at the allocation) + random multi-fault "
